@@ -6,7 +6,7 @@ PROPERTY = 'C01'
 LEAN_MODULES = ['YatimlModel.Props.C01']
 THEOREMS = ['YatimlModel.C01.' + t for t in [
     'C01_recognised_type_admitted', 'C01_root_tag', 'C01_scalar_exact_kind', 'checkAttributes_none',
-    'C01_any_is_plain', 'C01_empty_document']] + ['YatimlModel.recognize_admits',
+    'C01_any_is_plain', 'C01_empty_document', 'C01_every_constructor_call_typed']] + ['YatimlModel.recognize_admits',
                                                   'YatimlModel.construct_quiet']
 RULE = ('generated class models (typed signatures, hierarchies, enums, string-likes, Union/Optional, '
         'List/Dict and abstract variants, Any, date, Path, bool_union_fix, permissive custom '
